@@ -78,6 +78,12 @@ type Node struct {
 	Code     uint64 // custom type code
 	Text     bool   // custom text vs binary; comment multiline
 	Children []*Node
+	// Unordered marks a map whose entry order carries no meaning (a Go map); used by callers that
+	// normalise entry order before Diff. Diff itself ignores it.
+	Unordered bool
+	// Alt is an alternative form the expected side also accepts at this position (e.g. a registered
+	// struct written as a map instead of a record). Only consulted on the first argument of Diff.
+	Alt *Node
 }
 
 // ---------------------------------------------------------------------------------------------
@@ -602,6 +608,9 @@ func markerEq(a, b []byte) bool {
 func Diff(a, b *Node, o EqOpts) string { return diff(a, b, o, "$") }
 
 func diff(a, b *Node, o EqOpts, path string) string {
+	if a.Kind != b.Kind && a.Alt != nil {
+		return diff(a.Alt, b, o, path)
+	}
 	if a.Kind != b.Kind {
 		return fmt.Sprintf("%s: kind %v vs %v (%s vs %s)", path, a.Kind, b.Kind, a.Brief(), b.Brief())
 	}
@@ -778,4 +787,96 @@ func arrayBytesEq(at events.ArrayType, a, b []byte, o EqOpts) bool {
 		}
 	}
 	return true
+}
+
+// NumFromBigInt / NumFromFloat64 expose the numeric canonicalisation to reference models.
+func NumFromBigInt(v *big.Int) Num { return decFromBigInt(v) }
+func NumFromFloat64(f float64) Num { return numFromFloat64(f) }
+
+// SortMapPairs sorts the (key, value) pairs of a map node by the key's SortKey. Pseudo-nodes must have
+// been stripped.
+func SortMapPairs(n *Node) {
+	if n.Kind != KMap || len(n.Children)%2 != 0 {
+		return
+	}
+	type pair struct{ k, v *Node }
+	ps := make([]pair, 0, len(n.Children)/2)
+	for i := 0; i+1 < len(n.Children); i += 2 {
+		ps = append(ps, pair{n.Children[i], n.Children[i+1]})
+	}
+	sort.SliceStable(ps, func(i, j int) bool { return SortKey(ps[i].k) < SortKey(ps[j].k) })
+	for i, p := range ps {
+		n.Children[2*i], n.Children[2*i+1] = p.k, p.v
+	}
+}
+
+// ResolveRefs returns a copy of the tree in which every local reference is replaced by (a copy of)
+// the object carrying that marker and all markers are removed. References to unknown markers are kept.
+// Expansion stops at maxDepth to stay finite on cyclic documents (ok=false then).
+func ResolveRefs(root *Node, maxDepth int) (out *Node, ok bool) {
+	marked := map[string]*Node{}
+	Walk(root, func(n *Node) {
+		if n.Marker != nil {
+			marked[string(n.Marker)] = n
+		}
+	})
+	ok = true
+	var cp func(n *Node, depth int) *Node
+	cp = func(n *Node, depth int) *Node {
+		if depth > maxDepth {
+			ok = false
+			return &Node{Kind: KNull}
+		}
+		if n.Kind == KRef {
+			if t, found := marked[string(n.Bytes)]; found {
+				return cp(t, depth+1)
+			}
+		}
+		c := *n
+		c.Marker = nil
+		c.Alt = nil
+		c.Children = nil
+		for _, ch := range n.Children {
+			c.Children = append(c.Children, cp(ch, depth+1))
+		}
+		return &c
+	}
+	return cp(root, 0), ok
+}
+
+// RecordsToMaps rewrites every record into a map keyed by the field names of its record type and
+// removes the record type definitions (in place on a copy).
+func RecordsToMaps(root *Node) *Node {
+	types := map[string][]*Node{}
+	for _, c := range root.Children {
+		if c.Kind == KRecordType {
+			types[string(c.Bytes)] = c.Children
+		}
+	}
+	var cp func(n *Node) *Node
+	cp = func(n *Node) *Node {
+		c := *n
+		c.Children = nil
+		for _, ch := range n.Children {
+			if ch.Kind == KRecordType {
+				continue
+			}
+			c.Children = append(c.Children, cp(ch))
+		}
+		if n.Kind == KRecord {
+			keys := types[string(n.Bytes)]
+			vals := c.Children
+			c.Kind = KMap
+			c.Bytes = nil
+			c.Children = nil
+			for i, v := range vals {
+				if i < len(keys) {
+					k := *keys[i]
+					c.Children = append(c.Children, &k, v)
+				}
+			}
+		}
+		return &c
+	}
+	return cp(root)
 }
